@@ -31,7 +31,8 @@ CFG = dict(
     one_result={"closedness in lattice-edge ids": ["march_closed_balanced", "box_edges_nodup", "march_closed", "march_closed_exactly_one"]},
     helper_theorems=["cells_glue_face", "cell_edges_nodup", "table_segs_unit", "table_shared_edges", "table_case_edges_nodup",
                      "table_canon_no_antiparallel", "table_tri_edges_lt", "fetchCell_eq_global", "addField_allocates_neighbourhood",
-                     "march_weld_balanced"],
+                     "march_weld_balanced", "table_triangle_outward_corners", "table_triangle_outward", "march_volume_translation_invariant",
+                     "marched_perm_box", "table_inside_tests"],
     streams=[dict(name="c09", n=dict(quick=8, thorough=80), timeout=dict(quick=600, thorough=3600))],
     trusted=T_COMMON + [
         "engine F extractor /verif/go/facts/c09.go (go/parser; every unexpected AST shape is an error)",
@@ -39,11 +40,12 @@ CFG = dict(
         "driver's n log n evaluation of Closed and of Balanced (cross-checked against the quadratic specification predicate on meshes <= 150 triangles on every run)",
     ],
     residue=[
-        "outward orientation / positive enclosed volume: decided per run by c09.holds.outward (signed volume, Float), no theorem",
+        "ORIENTATION: proved per triangle (emitted_triangle_outward: for every grid, cutoff, cell and emitted triangle, at the interpolated positions, normal . (d0+d1+d2) >= 0, and > 0 when no outside end sample equals the cutoff; d_i = inside->outside direction of the lattice edge of corner i) and origin-independence of the signed volume of any balanced surface (volume_translation_invariant). NOT proved: that the total signed volume is POSITIVE (a global statement: it would need the per-cell volume identity 'cell triangles + canonical face polygons bound the inside polyhedron of the cell', not attempted); decided per run by c09.holds.outward (signed volume > 0, Float) and, per triangle, by c09.holds.tri_outward. The stronger per-edge form normal . d_i > 0 is FALSE for this table (72 of 820 triangles, e.g. row 23 triangle (2,9,7)); the sum form is what holds",
+        "c09.holds.tri_outward skips triangles with a corner within the weld radius of a lattice corner or on several sign-changing edges (their lattice edge is not determined by the position); epsilon 1e-6 cell^2",
         "TRANSFER from lattice-edge ids to the real mesh: the Balanced half transfers unconditionally (weld_preserves_balance / march_weld_balanced: any vertex identification, dropping triangles with two equal corners); 'exactly one' is PROVED to transfer only under the hypothesis that the float vertex map is injective on the sign-changing lattice edges (march_weld_closed, weld_preserves_nodup) - i.e. when no two distinct sign-changing lattice edges produce vertices in one weld cell; the hypothesis is sufficient, not necessary, it is NOT a theorem and it is FALSE in general: a sample EQUAL to the cutoff gives interpolation parameter 0/1, so up to six lattice edges produce the same corner position. Observed: lattice-aligned single shapes, shapes touching at a point/edge/corner stay closed (strict oracle c09.holds.closed on the lattice-aligned classes, both tiers, single block and across seams); two inside regions separated only by samples equal to the cutoff (two boxes touching at a lattice face) are welded into coincident sheets: balanced, but 32 directed edges matched twice = known finding C09-touching-at-cutoff (op c09.holds.closed_touching_at_cutoff_witness, replayed every run; c09.holds.balanced is true on it). SECOND failing class found by the lattice-aligned generators = known finding C09-cutoff-noise-line: an axis-aligned capsule with whole-cell radius on a lattice line at 5 or 10 cubes per unit has a whole lattice LINE of samples at -2.2e-16 (float noise below the cutoff); the one-sample ridge is welded flat, 76 directed edges matched twice, balanced (op c09.holds.closed_cutoff_noise_line_witness; the same capsules at 1, 2, 4, 8 cubes per unit are exact and pass the strict oracle)",
         "that LookupOrAdd (1e-4) / WeldByFloat3Attribute (1e-3) give ONE id to the two float computations of one lattice edge (interp_symmetric is the exact-arithmetic statement) and do not merge distinct lattice edges when cell size >> 1e-3 and no sample is within float noise of the cutoff: observed by the oracles on the final mesh, not proved",
         "march_closed is a theorem about lattice-edge ids over a box of cells (see one_result); see the TRANSFER item for what it says about the real mesh",
-        "that the cells the real marcher visits differ from a bounding box only by all-outside cells: skipped_cells_outside + empty row 0, not assembled into one statement with march_closed_balanced",
+        "marched_closed covers exactly the iteration of marchFloat1 (all allocated blocks in any order, all 100^3 cells, skip when a corner block is missing, case index from the fetched values) under MarchHyp; MarchHyp's padding hypothesis is what AddField's one-cell padding provides per axis (addField_allocates_neighbourhood), not derived for an arbitrary sequence of AddField calls; block enumeration without repetition = iteration over a Go map",
         "canvasPosToChunkPos computes floor(x/100) through float64 (exact for |x| < 2^46): assumed, tied by the grid correspondence at negative coordinates",
         "vertex within one cell of the TRUE isosurface: emitted_vertex_near_isosurface assembles table_edges_cross + case index + interp_between + interp_on_segment + IVT for every vertex the MODEL emits (lattice ids, exact arithmetic), under the hypothesis that the stored samples are the values of a field continuous along the edge; that the canvas stores exactly the analytic field's samples and that the real (float, welded) output vertex is that interpolated point is the per-run oracle c09.holds.near_iso",
         "IEEE rounding of interpolateVerts; Float2/Float3 canvases, texture helpers, AddFieldParallel*/MarchParallel (C10) out of scope",
